@@ -216,6 +216,9 @@ def run(ctx, progs):
                          [(C("GuestMemoryRegion::check_address", P(1), AGG("MemoryRegionAddress", None, OKP(X))), [('discr', X, 1)]),
                           (NONE, [('discr', X, 0)])],
                          "addr.checked_offset_from(start_addr()) is Some(o) => check_address(MemoryRegionAddress(o)); None => None")
+        D("R2.3.as_volatile_slice", prov(prog, GR, "as_volatile_slice"),
+          C("GuestMemoryRegion::get_slice", P(1), AGG("MemoryRegionAddress", None, K(0)), C("GuestMemoryRegion::len", P(1))),
+          want="get_slice(MemoryRegionAddress(0), self.len()): the whole region and nothing more (the region forwarders unwrap it)")
         # ---------------- GuestMemory provided methods
         rule_last_addr(ctx, prog, eff)
         b = prov(prog, GM, "to_region_addr")
